@@ -125,13 +125,17 @@ impl ReverseProxyListener {
         debug!("{}: recv from {:?} length: {}", self.name, source, size);
 
         if let Some(tx) = self.sessions.get(&source).await {
-            tx.send(buf).await.context("send")?;
+            // this loop serves every client of the listener: never wait here for one session's consumer,
+            // drop the datagram when that session's queue is full (like the tproxy listener does)
+            if tx.try_send(buf).is_err() {
+                tracing::warn!("{}: buffer overflow: src={}, dropping.", self.name, source);
+            }
         } else {
             let (tx, rx) = channel(100);
             let io = setup_udp_session(self.target.clone(), self.bind, source, rx, false)
                 .context("setup session")?;
             // the datagram that creates the session is its first frame
-            tx.send(buf).await.context("send")?;
+            tx.try_send(buf).context("send")?;
             self.sessions.insert(source, tx).await;
             let ctx = state
                 .contexts
